@@ -106,7 +106,24 @@ pub fn gen_recipe(r: &mut Rng, uniq: u64, rich: bool) -> Recipe {
         ext_extra: *r.pick(&[0usize, 0, 0, 5, 64]),
         seed: (uniq << 20) | r.below(1 << 20),
         mutation: None,
+        plant: Vec::new(),
     }
+}
+
+/// a block without random content, carrying explicit gadget directives
+pub fn plain_recipe(seed: u64, plant: &[String]) -> Recipe {
+    Recipe { ts_delta: 2_000 + seed % 3_000, miner: (seed % 4) as u8, new_txs: 0, propose: 0, commit: 0, uncles: 0, ext_extra: 0, seed, mutation: None, plant: plant.to_vec() }
+}
+
+/// (number, on a valid chain) for genesis + every tree block
+pub fn tree_numbers(tree: &[TreeOp]) -> (Vec<u64>, Vec<bool>) {
+    let mut number = vec![0u64];
+    let mut valid = vec![true];
+    for t in tree {
+        number.push(number[t.parent] + 1);
+        valid.push(valid[t.parent] && t.recipe.mutation.is_none());
+    }
+    (number, valid)
 }
 
 pub const MUTATIONS: &[&str] = &[
@@ -114,6 +131,7 @@ pub const MUTATIONS: &[&str] = &[
     "reward_plus_one", "reward_minus_one", "reward_lock", "cellbase_extra_output_early",
     "no_extension", "bad_chain_root", "short_extension",
     "uncle_sibling", "uncle_duplicate", "uncle_double_inclusion", "commit_unproposed",
+    "uncle_unknown_parent", "commit_immature_since",
 ];
 
 /// Random block tree. Needs a World to know the shape only (parents by index): the tree is
@@ -368,7 +386,13 @@ pub fn generate(seed: u64, prop: &str) -> Scenario {
         // most of the broken blocks carry the same transaction content with a failing witness
         for t in tree.iter_mut() {
             if t.recipe.mutation.is_some() && r.chance(2, 3) {
-                t.recipe.mutation = Some("witness_swap".into());
+                // mutants whose verdict a cache could change: same tx hash with a failing witness, a
+                // time lock that was satisfied where the transaction was verified before, an uncle
+                // whose parent was an included uncle on another branch
+                t.recipe.mutation = Some(r.pick(&["witness_swap", "witness_swap", "commit_immature_since", "uncle_unknown_parent"]).to_string());
+                if t.recipe.mutation.as_deref() == Some("uncle_unknown_parent") {
+                    t.recipe.uncles = t.recipe.uncles.max(1);
+                }
             }
             t.recipe.new_txs = t.recipe.new_txs.max(1);
             t.recipe.commit = t.recipe.commit.max(2);
@@ -407,6 +431,54 @@ pub fn generate(seed: u64, prop: &str) -> Scenario {
             }
             tree.insert(i + 1, twin);
             tree.insert(i + 2, child);
+        }
+    }
+    if prop == "C14" {
+        // planted gadgets on top of the highest valid block P: a verdict that a cache could change
+        let (number, valid) = tree_numbers(&tree);
+        let p = (0..number.len()).filter(|i| valid[*i]).max_by_key(|i| (number[*i], *i)).unwrap_or(0);
+        let base = 0x6ad6_0000_0000u64 ^ (seed << 8);
+        let mut push = |tree: &mut Vec<TreeOp>, parent: usize, k: u64, plant: &[String]| -> usize {
+            tree.push(TreeOp { parent, recipe: plain_recipe(base + k, plant) });
+            tree.len() // index of the new block in the world (genesis = 0)
+        };
+        match r.below(3) {
+            0 => {
+                // time-lock gadget: T is locked until S; branch A commits it at S (valid, so its
+                // verification result is cached), the later and longer branch B commits it at S-1
+                let wc = cfg.w_close;
+                if cfg.w_far > wc {
+                    let g1 = push(&mut tree, p, 1, &[format!("tx_since:g:{}", wc + 1), "propose:g".to_string()]);
+                    let mut a = g1;
+                    for j in 0..=wc {
+                        let plant = if j == wc { vec!["commit:g".to_string()] } else { vec![] };
+                        a = push(&mut tree, a, 10 + j, &plant);
+                    }
+                    let mut b = g1;
+                    for j in 0..wc {
+                        let plant = if j + 1 == wc { vec!["commit_immature:g".to_string()] } else { vec![] };
+                        b = push(&mut tree, b, 30 + j, &plant);
+                    }
+                    for j in 0..2 {
+                        b = push(&mut tree, b, 50 + j, &[]);
+                    }
+                }
+            }
+            1 => {
+                // uncle gadget: X and its child Y are embedded as uncles on branch A (Y is legal there
+                // because its parent X is an included uncle); branch B embeds Y without X
+                let x = push(&mut tree, p, 101, &[]);
+                let y = push(&mut tree, x, 102, &[]);
+                let a1 = push(&mut tree, p, 103, &[]);
+                let a2 = push(&mut tree, a1, 104, &[format!("uncle_ok:{x}")]);
+                let _a3 = push(&mut tree, a2, 105, &[format!("uncle_ok:{y}")]);
+                let b1 = push(&mut tree, p, 106, &[]);
+                let b2 = push(&mut tree, b1, 107, &[]);
+                let b3 = push(&mut tree, b2, 108, &[format!("uncle_bad:{y}")]);
+                let b4 = push(&mut tree, b3, 109, &[]);
+                let _b5 = push(&mut tree, b4, 110, &[]);
+            }
+            _ => {}
         }
     }
     let n = tree.len();
